@@ -46,7 +46,9 @@ META = {
         ('sequences_lib', 'quantize_to_step'),
     ],
     'assumptions': [
-        'Q has the default 4/4 meter; no two notes of one pitch overlap',
+        'Q has the default 4/4 meter; no two notes of one pitch overlap (except '
+        'in the performance job marked overlap, where one pitch sounds twice '
+        'at once)',
         'tempo, steps_per_quarter / steps_per_second, velocity bins and shift '
         'limits come from the grids listed in the property (concrete per job); '
         'steps <= 8',
@@ -253,8 +255,11 @@ def h_performance(c):
     c.check(p0.steps_per_quarter == p1.steps_per_quarter, 'same resolution')
   else:
     sps = c.params['sps']
+    # C06 has no non-overlap precondition: a pitch may sound twice at once
     ns, notes, tq = c07._qseq(c, N, S, relative=False, sps=sps, vel=(1, 127),
-                              instruments=(0, 0))
+                              instruments=(0, 0), pitch=c.params.get(
+                                  'pitch', (58, 62)),
+                              no_overlap=not c.params.get('overlap', False))
     for n in ns.notes:
       n.is_drum = False
       n.program = 0
@@ -390,6 +395,8 @@ def jobs(tier):
       start=2, budget=600)
   add('h_performance', kind='metric', N=2, S=6, spq=4, qpm=120, bins=32, ms=1,
       start=0, budget=600)
+  add('h_performance', kind='absolute', N=2, S=5, sps=100, bins=4, ms=100,
+      start=0, overlap=True, pitch=[60, 60], budget=600)
   add('h_noteperf', N=2, S=6, sps=100, bins=32)
   if deep:
     for sps in (10, 31, 100, 250):
